@@ -930,6 +930,9 @@ class Consumer(object):
                 try:
                     self._handle_fetch_response(responses)
                 except Exception:
+                    if self._start_d is None or self._start_d.called:
+                        # Stopped or already failed: there is nothing to retry
+                        raise
                     self._handle_fetch_error(Failure())
 
             self._msg_block_d.addCallback(_handle_parked_response)
